@@ -239,7 +239,13 @@ impl Directive {
                 if !context.last_segment().unwrap().borrow().is_empty() {
                     context.add_segment(Segment::new(new_type));
                 } else {
-                    context.last_segment().unwrap().borrow_mut().t = new_type;
+                    let segment = context.last_segment().unwrap();
+                    let mut segment = segment.borrow_mut();
+                    if segment.t != new_type {
+                        // the origin it has is one of the other address space
+                        segment.address = 0;
+                    }
+                    segment.t = new_type;
                 }
             }
             Directive::Device => {
